@@ -106,6 +106,15 @@ def bounded(pb, interp, rng, tier):
                         fail("Phase.argsort", "argsort.axis-none", f"count {row[0][0]}", str(ia))
                     if exact_arr(pf.sort(axis=None)) != sorted(ef):
                         fail("Phase.sort", "sort.axis-none", f"count {row[0][0]}", "not sorted on the exact value")
+                # flattened order of non-contiguous views (transposed, reversed)
+                if len(row) >= 6:
+                    pc = Phase(np.array([c for c, f in row[:6]]).reshape(2, 3), np.array([f for c, f in row[:6]]).reshape(2, 3))
+                    for vname, pv in (("T", pc.T), ("[:, ::-1]", pc[:, ::-1])):
+                        evv = exact_arr(pv)
+                        iv = np.asarray(pv.argsort(axis=None)).ravel()
+                        if [evv[int(k)] for k in iv] != sorted(evv) or exact_arr(pv.sort(axis=None)) != sorted(evv):
+                            fail("Phase.argsort", "argsort.axis-none.non-contiguous", f"count {row[0][0]} view {vname}", str(iv))
+                            break
                 # 2-d, along each axis
                 if len(row) < 6:
                     continue
